@@ -32,9 +32,17 @@ Step == /\ pc = "elim" /\ ElimDone(e, m, n) = FALSE
 BitsOf(k, w) == [i \in 1..w |-> (k \div 2^(w - i)) % 2]
 Sols == [k \in 1..2^m |-> LET b == BitsOf(k - 1, m)  ok == SolvableE(e, b, m) IN
             [b |-> b, ok |-> ok, x |-> IF ok THEN ParticularE(e, b, m, n) ELSE <<>>, ns |-> NumSolutionsE(e, b, m, n)]]
+\* the systems the consumers pose, read off the same elimination:
+\* (SYM) n = 2q, the rows of A are the terms (x|z) of a Hamiltonian: a basis of its symmetry group is the kernel basis with
+\*       the halves exchanged (<<>> for odd n);
+\* (ROWSEL) A regular: the rows of A whose sum is e_i are selected by row i of T = A^-1 (<<>> when A is not regular)
+HasSym == n > 0 /\ n % 2 = 0
+IsRegular == m = n /\ RankE(e) = n
+SymBasisE == IF HasSym THEN LET kb == KernelBasisE(e, n) IN [k \in 1..Len(kb) |-> SwapHalves(kb[k], n \div 2)] ELSE <<>>
+RowSelE == IF IsRegular THEN e.T ELSE <<>>
 Emit == /\ pc = "elim" /\ ElimDone(e, m, n) = TRUE /\ pc' = "done" /\ UNCHANGED <<m, n, A, e, rsp, img>>
         /\ PrintT(ToJson([m |-> m, n |-> n, A |-> A, rref |-> e.mat, rank |-> RankE(e), piv |-> e.piv,
-                          sols |-> Sols, kern |-> KernelBasisE(e, n)]))
+                          sols |-> Sols, kern |-> KernelBasisE(e, n), sym |-> SymBasisE, inv |-> RowSelE]))
 Next == Prep \/ Step \/ Emit
 
 \* the brute-force objects, read from the state
@@ -66,4 +74,14 @@ KernelAgree == pc = "done" =>
 \* the pivot columns are the greedy left-to-right column basis
 GreedyAgree == pc = "done" =>
   \A j \in 1..n : (\E i \in 1..RankE(e) : e.piv[i] = j) <=> Col(A, j, m) \notin PrefixSpan(j)
+\* the symmetry group (brute force over the symplectic form) is the kernel with the halves exchanged, and the read-off spans it
+SymAgree == (pc = "done" /\ HasSym) =>
+  LET q == n \div 2  G == SymGroup(A, m, q)  sb == SymBasisE IN
+     /\ G = {SwapHalves(x, q) : x \in SolSet(Zero(m))}
+     /\ RowSpace(sb, Len(sb), n) = G /\ Cardinality(G) = 2^Len(sb)
+     /\ \A k \in 1..Len(sb) : \A r \in 1..m : Symp(A[r], sb[k], q) = 0
+\* the row selection for e_i exists and is unique exactly for regular A, and is row i of T
+RowSelAgree == pc = "done" =>
+  /\ IsRegular => \A i \in 1..n : RowSelections(A, i, n) = {e.T[i]}
+  /\ (m = n /\ ~IsRegular) => \E i \in 1..n : RowSelections(A, i, n) = {}
 =============================================================================
